@@ -215,6 +215,10 @@ _CONTAINER_MUTATORS = ('append', 'extend', 'insert', 'pop', 'remove', 'clear', '
                        'add', 'discard', 'sort', 'reverse', '__setitem__', '__delitem__')
 
 
+class Transparent:
+    """analyser-provided stand-in whose attributes are read as they are (inspect.Signature, BoundArguments)"""
+
+
 class HostMod:
     """a real standard-library module"""
 
@@ -360,6 +364,9 @@ class Libs:
     def module(self, dotted):
         if dotted in self._mods:
             return self._mods[dotted]
+        if dotted == 'inspect':
+            self._mods[dotted] = ExtMod('inspect', {'signature': self._signature})
+            return self._mods[dotted]
         if dotted in self.HOST_MODULES:
             import importlib
             real = importlib.import_module(dotted)
@@ -492,6 +499,43 @@ class Libs:
         self._mods['os'] = ExtMod('os', {})
         self._mods['copy'] = ExtMod('copy', {'copy': self._unsupported('copy.copy'), 'deepcopy': self._unsupported('copy.deepcopy')})
 
+    def _signature(self, f):
+        """inspect.signature of a function of the analysed program: bind() and the parameter names"""
+        from .pyinterp import BoundMethod
+        skip = 0
+        if isinstance(f, BoundMethod):
+            f, skip = f.func, 1
+        if not isinstance(f, PyFunc):
+            raise AnalysisError('unsupported', 'inspect.signature of %s' % type(f).__name__)
+        interp = self.interp
+        import collections
+
+        class Bound(Transparent):
+            def __init__(self, arguments):
+                self.arguments = arguments
+
+            def apply_defaults(self):
+                return None
+
+        class Sig(Transparent):
+            parameters = collections.OrderedDict(
+                (p.arg, p.arg) for p in (f.node.args.posonlyargs + f.node.args.args)[skip:] + f.node.args.kwonlyargs)
+
+            def bind(self_, *a, **k):
+                loc = collections.OrderedDict()
+                interp.bind_arguments(f, ([None] * skip) + list(a), k, loc)
+                # Python's bind() leaves out parameters that fall back to their default
+                given = set(k)
+                names = [p.arg for p in (f.node.args.posonlyargs + f.node.args.args)]
+                given |= set(names[:skip + len(a)])
+                out = collections.OrderedDict((n, v) for n, v in loc.items()
+                                              if n in given or n in (getattr(f.node.args.vararg, 'arg', None),
+                                                                      getattr(f.node.args.kwarg, 'arg', None)))
+                for n in names[:skip]:
+                    out.pop(n, None)
+                return Bound(out)
+        return Sig()
+
     def _partial(self, f, *a, **k):
         interp = self.interp
 
@@ -595,6 +639,12 @@ class Libs:
                         return real
                     return self._config_only(real, '%s.%s' % (obj.name, name))
             raise AnalysisError('unknown-primitive', '%s.%s at %s' % (obj.name, name, self.interp.loc()))
+        if isinstance(obj, Transparent):
+            try:
+                return getattr(obj, name)
+            except AttributeError:
+                raise PyExc('AttributeError', "'%s' object has no attribute '%s'" % (type(obj).__name__, name),
+                            loc=self.interp.loc())
         if isinstance(obj, HostMod):
             if name in obj.overrides:
                 return obj.overrides[name]
